@@ -1,0 +1,21 @@
+// SPDX-FileCopyrightText: 2026 The Pion community <https://pion.ly>
+// SPDX-License-Identifier: MIT
+
+//go:build verif
+
+package stats
+
+import "github.com/pion/logging"
+
+// NewRecorderVerif returns the package's default (unexported) recorder so the
+// external verification harness can drive it directly. It is only compiled
+// with the "verif" build tag.
+func NewRecorderVerif(ssrc uint32, clockRate float64) Recorder {
+	return newRecorder(ssrc, clockRate, logging.NewDefaultLoggerFactory())
+}
+
+// WaitRecordersStartedVerif blocks until the Start goroutine of every recorder
+// created so far has run, so that no packet is dropped as "not yet running".
+func (r *Interceptor) WaitRecordersStartedVerif() {
+	r.wg.Wait()
+}
